@@ -29,6 +29,19 @@ def rand_colorspec(rng):
     return ("hex" if r < 0.8 else "rgb",) + rgb
 
 
+def related_colorspecs(rng):
+    """A family of colours that are easy to confuse with one another: an index n, the RGB triples built from n,
+    the same index as a named colour, neighbours.  Used to build per-case palettes."""
+    n = rng.choice([0, 1, 7, 8, 15, 16, 128, 200, 231, 232, 255, rng.randrange(256)])
+    fam = [("num", n), ("hex", 0, 0, n), ("rgb", 0, n, 0), ("hex", n, 0, 0), ("rgb", n, n, n), ("num", (n + 1) % 256),
+           ("hex", 0, 0, (n + 1) % 256), ("num", n % 16), ("num", 8 + n % 8), ("default",)]
+    for number, name, _ in docs_colors.rows():
+        if number == n:
+            fam.append(("named", name, number))
+            break
+    return fam
+
+
 def spell(spec):
     k = spec[0]
     if k == "default":
@@ -53,12 +66,21 @@ def expected_color(spec):
     return ("truecolor", None, tuple(spec[1:]))
 
 
+# fragments that mean something to string formatting / templating / regex substitution: a URL or a text must pass
+# through any amount of internal string assembly untouched
+HOSTILE_FRAGMENTS = ["{0}", "{}", "{text}", "%s", "%(a)s", "%%", "$1", "\\1", "\\g<0>", "{{", "}}", "{0", "&amp;"]
+
+
 def rand_url(rng):
     scheme = rng.choice(["http://", "https://", "file:///", "mailto:", "x:"])
-    return scheme + "".join(rng.choice(URL_CHARS) for _ in range(rng.randint(1, 12)))
+    body = "".join(rng.choice(URL_CHARS) for _ in range(rng.randint(1, 12)))
+    if rng.random() < 0.15:
+        pos = rng.randint(0, len(body))
+        body = body[:pos] + rng.choice(HOSTILE_FRAGMENTS) + body[pos:]
+    return scheme + body
 
 
-def rand_record(rng, p_attr=None, p_fg=0.5, p_bg=0.35, p_link=0.15, allow_false=True):
+def rand_record(rng, p_attr=None, p_fg=0.5, p_bg=0.35, p_link=0.15, allow_false=True, colors=None):
     if p_attr is None:
         p_attr = rng.choice([0.0, 0.08, 0.15, 0.3, 0.6])
     attrs = {}
@@ -66,8 +88,8 @@ def rand_record(rng, p_attr=None, p_fg=0.5, p_bg=0.35, p_link=0.15, allow_false=
         if rng.random() < p_attr:
             attrs[a] = True if (not allow_false or rng.random() < 0.65) else False
     rec = {"attrs": attrs,
-           "fg": rand_colorspec(rng) if rng.random() < p_fg else None,
-           "bg": rand_colorspec(rng) if rng.random() < p_bg else None,
+           "fg": (rng.choice(colors) if colors else rand_colorspec(rng)) if rng.random() < p_fg else None,
+           "bg": (rng.choice(colors) if colors else rand_colorspec(rng)) if rng.random() < p_bg else None,
            "link": rand_url(rng) if rng.random() < p_link else None}
     return rec
 
